@@ -23,7 +23,16 @@ class Tag(models.Model):
     weight = models.IntegerField()
 
 
+class HighScoreManager(models.Manager):
+    """a narrowing, non-default manager (C15: the shorthand must keep the conditions of the manager it is given)"""
+
+    def get_queryset(self):
+        return super().get_queryset().filter(score__gte=2)
+
+
 class Post(models.Model):
+    objects = models.Manager()
+    high = HighScoreManager()
     title = models.CharField(max_length=50)
     score = models.IntegerField()
     blog = models.ForeignKey(Blog, null=True, on_delete=models.CASCADE, related_name="posts")
